@@ -125,6 +125,7 @@ func initEndlessClosedRange() {
 	RegisterNativeClass("Std::EndlessClosedRange", "value.EndlessClosedRangeClass")
 
 	EndlessClosedRangeIteratorClass = NewClass()
+	EndlessClosedRangeIteratorClass.IncludeMixin(ResettableIteratorBaseMixin)
 	EndlessClosedRangeClass.AddConstantString("Iterator", Ref(EndlessClosedRangeIteratorClass))
 	RegisterNativeClass("Std::EndlessClosedRange::Iterator", "value.EndlessClosedRangeIteratorClass")
 }
